@@ -828,7 +828,9 @@ fn pt_thread<C: Debug + Hash>(
                 }
                 if !shrinking {
                     // one thread shrinks a given signature; the others move on
-                    if !claimed.lock().unwrap().insert(v.sig()) {
+                    let mut c = claimed.lock().unwrap();
+                    // a dozen distinct signatures is a verdict; do not spend the budget shrinking more
+                    if (c.len() >= 12 && !c.contains(&v.sig())) || !c.insert(v.sig()) {
                         ignored.borrow_mut().insert(v.sig());
                         continue;
                     }
